@@ -188,3 +188,238 @@ Example roundtrip_example :
   let v := LMap [(AStr 50%N, AUuid 60%N); (AStr 51%N, AUuid 61%N)] in
   native_has_type ct v = true /\ native_wf v = true.
 Proof. split; reflexivity. Qed.
+
+(** ** The whole model: NewRow, JSON, GetRowData into a fresh model *)
+
+Definition default_native (ct : colty) : lvalue :=
+  match ct_kind ct with
+  | KAtom => LAtom (atom_zero (bt_ty (ct_key ct)))
+  | KOpt => LOpt None
+  | KSet => LSet []
+  | KMap => LMap []
+  end.
+
+(** a model: one value per column, in column order *)
+Definition model_of (cols : list column) (vals : list lvalue) : nmodel := zip (map c_name cols) vals.
+Definition fresh_model (cols : list column) : nmodel := map (fun C => (c_name C, default_native (c_ty C))) cols.
+
+(** the all-zero uuid is a recorded finding: it is treated as default and comes back as "" *)
+Definition not_zero_uuid (v : lvalue) : bool :=
+  match v with LAtom (AUuid u) => negb (N.eqb u s_zero_uuid) | _ => true end.
+
+Lemma default_is_default ct v :
+  native_has_type ct v = true -> not_zero_uuid v = true -> native_is_default ct v = true -> v = default_native ct.
+Proof.
+  unfold native_has_type, default_native. destruct (ct_kind ct), v as [a|[a|]|l|l]; try discriminate; intros Hty Hz Hd.
+  - cbn in Hd. destruct a; try discriminate.
+    + apply bool_decide_eq_true in Hd. exact (f_equal LAtom Hd).
+    + apply bool_decide_eq_true in Hd. exact (f_equal LAtom Hd).
+    + apply bool_decide_eq_true in Hd. exact (f_equal LAtom Hd).
+    + cbn in Hz, Hty. unfold atom_ok in Hty. destruct (bt_ty (ct_key ct)); try discriminate.
+      apply orb_prop in Hd as [Hd|Hd]; apply N.eqb_eq in Hd; subst; [reflexivity|]. rewrite N.eqb_refl in Hz. discriminate.
+  - reflexivity.
+  - cbn in Hd. destruct l; [reflexivity|discriminate].
+  - cbn in Hd. destruct l; [reflexivity|discriminate].
+Qed.
+
+(** one column of the path: what GetRowData stores for it *)
+Definition column_back (vu : sym -> bool) (f : nat) (ct : colty) (v : lvalue) : res lvalue :=
+  if native_is_default ct v then Ok (default_native ct)
+  else g <- native_to_ovs ct v ;; g' <- notation (5 + f) (enc_value vu g) ;; ovs_to_native ct g'.
+
+(** every field comes back: the per-column statement behind the whole-model round trip *)
+Theorem model_field_roundtrip vu f ct v :
+  native_has_type ct v = true -> native_wf v = true -> not_zero_uuid v = true ->
+  column_back vu f ct v = Ok v.
+Proof.
+  intros Hty Hwf Hz. unfold column_back. destruct (native_is_default ct v) eqn:Hd.
+  - rewrite <- (default_is_default ct v Hty Hz Hd). reflexivity.
+  - apply column_value_roundtrip; assumption.
+Qed.
+
+(** *** NewRow as a whole *)
+Definition row_entry (m : nmodel) (C : column) : list (sym * gval) :=
+  match nm_get m (c_name C) with
+  | Some v => if native_is_default (c_ty C) v then []
+              else match native_to_ovs (c_ty C) v with Ok g => [(c_name C, g)] | _ => [] end
+  | None => []
+  end.
+
+Definition typed_model (cols : list column) (m : nmodel) : Prop :=
+  forall C v, C ∈ cols -> nm_get m (c_name C) = Some v ->
+    native_has_type (c_ty C) v = true /\ native_wf v = true /\ not_zero_uuid v = true.
+
+Lemma native_to_ovs_typed ct v : native_has_type ct v = true -> exists g, native_to_ovs ct v = Ok g.
+Proof. intros H. unfold native_to_ovs. rewrite H. destruct v as [|[]| |]; eauto. Qed.
+
+Lemma new_row_acc m cols acc :
+  typed_model cols m ->
+  rfold (fun r C =>
+           match nm_get m (c_name C) with
+           | None => Ok r
+           | Some v =>
+               if native_is_default (c_ty C) v then Ok r
+               else g <- native_to_ovs (c_ty C) v ;; Ok (r ++ [(c_name C, g)])
+           end) cols acc = Ok (acc ++ (cols ≫= row_entry m)).
+Proof.
+  revert acc. induction cols as [|C cols IH]; intros acc Hty; cbn.
+  - rewrite app_nil_r. reflexivity.
+  - assert (Hty' : typed_model cols m) by (intros C' v HC; apply Hty; set_solver).
+    unfold row_entry at 1. destruct (nm_get m (c_name C)) as [v|] eqn:E.
+    + destruct (native_is_default (c_ty C) v); cbn.
+      * apply IH, Hty'.
+      * destruct (Hty C v) as (Ht & _); [set_solver|exact E|]. destruct (native_to_ovs_typed _ _ Ht) as [g Eg].
+        rewrite Eg. cbn. rewrite IH by exact Hty'. rewrite <- app_assoc. reflexivity.
+    + cbn. apply IH, Hty'.
+Qed.
+
+Theorem new_row_is T m : typed_model (t_cols T) m -> new_row T m = Ok (t_cols T ≫= row_entry m).
+Proof. intros H. unfold new_row. rewrite (new_row_acc m (t_cols T) [] H). reflexivity. Qed.
+
+(** *** the row through JSON *)
+Definition from_native (g : gval) : Prop := exists ct v, native_to_ovs ct v = Ok g /\ native_wf v = true.
+
+Lemma row_through_json vu f r :
+  Forall (fun kv => from_native kv.2) r ->
+  through_json vu (5 + f) r = Ok (map (fun kv => (kv.1, wire_nf kv.2)) r).
+Proof.
+  unfold through_json, enc_row, dec_row. induction r as [|[k g] r IH]; intros H; [reflexivity|].
+  inversion H as [|? ? (ct & v & Eg & Hwf) Hr]; subst. cbn [map rmapM fst snd].
+  rewrite (json_trip vu f ct v g Eg Hwf). cbn [rbind]. rewrite (IH Hr). reflexivity.
+Qed.
+
+(** *** GetRowData as a whole, field by field *)
+Lemma nm_get_set_same m c v x : nm_get m c = Some x -> nm_get (nm_set m c v) c = Some v.
+Proof.
+  induction m as [|[k y] m IH]; cbn; [discriminate|].
+  destruct (N.eqb_spec k c) as [->|Hk]; cbn.
+  - intros _. rewrite N.eqb_refl. reflexivity.
+  - intros H. destruct (N.eqb_spec k c); [congruence|]. apply IH, H.
+Qed.
+
+Lemma get_row_data_field cols r m m' c :
+  NoDup (map c_name cols) ->
+  rfold (fun m C =>
+           match nm_get m (c_name C), obj_get r (c_name C) with
+           | Some _, Some g => v <- ovs_to_native (c_ty C) g ;; Ok (nm_set m (c_name C) v)
+           | _, _ => Ok m
+           end) cols m = Ok m' ->
+  forall C, C ∈ cols -> c_name C = c ->
+    match nm_get m c, obj_get r c with
+    | Some _, Some g => exists v, ovs_to_native (c_ty C) g = Ok v /\ nm_get m' c = Some v
+    | _, _ => nm_get m' c = nm_get m c
+    end.
+Proof.
+  revert m. induction cols as [|D cols IH]; intros m Hnd Hrun C HC Hc; [inversion HC|].
+  cbn in Hnd. apply NoDup_cons in Hnd as [Hnotin Hnd]. cbn [rfold] in Hrun.
+  set (stepD := match nm_get m (c_name D), obj_get r (c_name D) with
+                | Some _, Some g => v <- ovs_to_native (c_ty D) g ;; Ok (nm_set m (c_name D) v)
+                | _, _ => Ok m end) in Hrun.
+  destruct stepD as [m1| |] eqn:E1; try discriminate. cbn [rbind] in Hrun.
+  (* the rest of the columns does not touch a name that is not among them *)
+  assert (Hrest : forall n, n ∉ map c_name cols -> nm_get m' n = nm_get m1 n).
+  { clear -Hrun. revert m1 Hrun. induction cols as [|E cols IH2]; intros m1 Hrun n Hn; cbn in Hrun.
+    - injection Hrun as <-. reflexivity.
+    - destruct (nm_get m1 (c_name E)) eqn:G1; [destruct (obj_get r (c_name E)) eqn:G2|].
+      + destruct (ovs_to_native (c_ty E) g) as [v| |]; try discriminate. cbn in Hrun.
+        rewrite (IH2 _ Hrun n) by set_solver. apply nm_get_set_other. set_solver.
+      + apply (IH2 _ Hrun). set_solver.
+      + apply (IH2 _ Hrun). set_solver. }
+  apply elem_of_cons in HC as [->|HC].
+  - (* the column processed now *)
+    subst c. rewrite (Hrest _ Hnotin). unfold stepD in E1.
+    destruct (nm_get m (c_name D)) as [x|] eqn:G1; [destruct (obj_get r (c_name D)) as [g|] eqn:G2|].
+    + destruct (ovs_to_native (c_ty D) g) as [v| |] eqn:Ev; try discriminate. injection E1 as <-.
+      exists v. split; [reflexivity|]. apply (nm_get_set_same _ _ _ x G1).
+    + injection E1 as <-. exact G1.
+    + injection E1 as <-. exact G1.
+  - (* a later column: the first step does not touch it *)
+    assert (Hne : c_name D <> c).
+    { intros Heq. apply Hnotin. rewrite Heq, <- Hc. apply elem_of_list_fmap. exists C. auto. }
+    assert (Hm1 : nm_get m1 c = nm_get m c).
+    { unfold stepD in E1. destruct (nm_get m (c_name D)); [destruct (obj_get r (c_name D))|]; try (injection E1 as <-; reflexivity).
+      destruct (ovs_to_native (c_ty D) g) as [v| |]; try discriminate. injection E1 as <-. apply nm_get_set_other. congruence. }
+    specialize (IH m1 Hnd Hrun C HC Hc). rewrite Hm1 in IH. exact IH.
+Qed.
+
+Lemma row_entry_names m C kv : kv ∈ row_entry m C -> kv.1 = c_name C.
+Proof.
+  unfold row_entry. destruct (nm_get m (c_name C)); [|intros H; inversion H].
+  destruct (native_is_default _ _); [intros H; inversion H|].
+  destruct (native_to_ovs _ _); try (intros H; inversion H; fail).
+  intros H. apply elem_of_list_singleton in H as ->. reflexivity.
+Qed.
+
+Lemma obj_get_skip (l1 l2 : list (sym * gval)) k :
+  (forall kv, kv ∈ l1 -> kv.1 <> k) -> obj_get (l1 ++ l2) k = obj_get l2 k.
+Proof.
+  induction l1 as [|[k' g] l1 IH]; intros H; [reflexivity|]. cbn.
+  destruct (N.eqb_spec k' k) as [->|_]; [exfalso; apply (H (k, g)); [set_solver|reflexivity]|].
+  apply IH. intros kv Hkv. apply H. set_solver.
+Qed.
+
+Lemma obj_get_none (l : list (sym * gval)) k : (forall kv, kv ∈ l -> kv.1 <> k) -> obj_get l k = None.
+Proof. intros H. rewrite <- (app_nil_r l). rewrite obj_get_skip by exact H. reflexivity. Qed.
+
+Lemma obj_get_row m cols C :
+  NoDup (map c_name cols) -> C ∈ cols ->
+  obj_get (map (fun kv => (kv.1, wire_nf kv.2)) (cols ≫= row_entry m)) (c_name C)
+  = match row_entry m C with (_, g) :: _ => Some (wire_nf g) | [] => None end.
+Proof.
+  induction cols as [|D cols IH]; intros Hnd HC; [inversion HC|].
+  cbn in Hnd. apply NoDup_cons in Hnd as [Hnotin Hnd]. cbn [mbind list_bind]. rewrite map_app.
+  apply elem_of_cons in HC as [->|HC].
+  - destruct (row_entry m D) as [|[k g] rest] eqn:E.
+    + cbn. apply obj_get_none. intros kv Hkv. apply elem_of_list_fmap in Hkv as ([k g] & -> & Hin). cbn.
+      apply elem_of_list_bind in Hin as (E' & Hkg & HE'). pose proof (row_entry_names m E' (k, g) Hkg) as Hn. cbn in Hn. subst k.
+      intros Heq. apply Hnotin. rewrite <- Heq. apply elem_of_list_fmap. exists E'. auto.
+    + assert (k = c_name D) by (apply (row_entry_names m D (k, g)); rewrite E; set_solver). subst k.
+      cbn. rewrite N.eqb_refl. reflexivity.
+  - rewrite obj_get_skip; [apply IH; assumption|].
+    intros kv Hkv. apply elem_of_list_fmap in Hkv as ([k g] & -> & Hin). cbn.
+    pose proof (row_entry_names m D (k, g) Hin) as Hn. cbn in Hn. subst k. intros Heq. apply Hnotin. rewrite Heq.
+    apply elem_of_list_fmap. exists C. auto.
+Qed.
+
+Lemma nm_get_fresh cols C :
+  NoDup (map c_name cols) -> C ∈ cols -> nm_get (fresh_model cols) (c_name C) = Some (default_native (c_ty C)).
+Proof.
+  induction cols as [|D cols IH]; intros Hnd HC; [inversion HC|].
+  cbn in Hnd. apply NoDup_cons in Hnd as [Hnotin Hnd]. cbn.
+  apply elem_of_cons in HC as [->|HC]; [rewrite N.eqb_refl; reflexivity|].
+  destruct (N.eqb_spec (c_name D) (c_name C)) as [Heq|_]; [|apply IH; assumption].
+  exfalso. apply Hnotin. rewrite Heq. apply elem_of_list_fmap. exists C. auto.
+Qed.
+
+Lemma row_from_native m cols :
+  typed_model cols m -> Forall (fun kv => from_native kv.2) (cols ≫= row_entry m).
+Proof.
+  intros Hty. apply Forall_forall. intros [k g] Hin.
+  apply elem_of_list_bind in Hin as (C & Hkg & HC). unfold row_entry in Hkg.
+  destruct (nm_get m (c_name C)) as [v|] eqn:E; [|inversion Hkg].
+  destruct (native_is_default _ _); [inversion Hkg|].
+  destruct (native_to_ovs (c_ty C) v) as [g'| |] eqn:Eg; try (inversion Hkg; fail).
+  apply elem_of_list_singleton in Hkg. injection Hkg as -> ->.
+  destruct (Hty C v HC E) as (_ & Hwf & _). exists (c_ty C), v. auto.
+Qed.
+
+(** The property for a whole model: a model converted with NewRow, sent through JSON and read back with
+    GetRowData into a fresh model has the same value in every mapped field. *)
+Theorem model_roundtrip vu f T m r r' m' :
+  NoDup (map c_name (t_cols T)) -> typed_model (t_cols T) m ->
+  new_row T m = Ok r -> through_json vu (5 + f) r = Ok r' ->
+  get_row_data T r' (fresh_model (t_cols T)) = Ok m' ->
+  forall C v, C ∈ t_cols T -> nm_get m (c_name C) = Some v -> nm_get m' (c_name C) = Some v.
+Proof.
+  intros Hnd Hty Hr Hj Hg C v HC Hv.
+  rewrite (new_row_is T m Hty) in Hr. injection Hr as <-.
+  rewrite (row_through_json vu f _ (row_from_native m _ Hty)) in Hj. injection Hj as <-.
+  pose proof (get_row_data_field (t_cols T) _ _ _ (c_name C) Hnd Hg C HC eq_refl) as H.
+  rewrite (nm_get_fresh _ C Hnd HC), (obj_get_row m _ C Hnd HC) in H.
+  destruct (Hty C v HC Hv) as (Ht & Hwf & Hz).
+  unfold row_entry in H. rewrite Hv in H.
+  destruct (native_is_default (c_ty C) v) eqn:Hd.
+  - rewrite H. f_equal. symmetry. apply default_is_default; assumption.
+  - destruct (native_to_ovs_typed _ _ Ht) as [g Eg]. rewrite Eg in H.
+    destruct H as (v' & Ev' & Hm'). rewrite (native_back (c_ty C) v g Eg Hwf) in Ev'. injection Ev' as <-. exact Hm'.
+Qed.
